@@ -102,6 +102,9 @@ class Checker:
             try:
                 if fn.startswith('lemma '):
                     vc = driver.gen_lemma(prog, cs, fn[6:])
+                elif fn.startswith('ftype|'):
+                    _, impl_fn, fts = fn.split('|')
+                    vc = driver.gen_functype_impl(prog, cs, impl_fn, fts)
                 elif fn.startswith('iface|'):
                     _, impl_fn, its, mname = fn.split('|')
                     vc = driver.gen_iface_impl(prog, cs, impl_fn, (its, mname))
@@ -119,6 +122,14 @@ class Checker:
             for k in vc.used_contracts:
                 if isinstance(k, str) and k not in vcs and k in cs.funcs and not cs.funcs[k].trusted:
                     todo.append(k)
+                if isinstance(k, tuple) and k[0] == 'functype':
+                    # contract of a named func type assumed at a call through a function value: every module
+                    # function that is converted to that type must satisfy it
+                    for impl_fn in prog.functype_values(k[1]):
+                        key = 'ftype|%s|%s' % (impl_fn, k[1])
+                        if key not in vcs:
+                            todo.append(key)
+                    continue
                 if isinstance(k, tuple):
                     # interface contract assumed at a call: every implementation in the module must satisfy it
                     its, mname = k
@@ -288,8 +299,9 @@ class Checker:
         if fam_name:
             cls = getattr(replay_mod, fam_name)
             pkgdir, src, bound = cls.bounded_source(prog, None)
-            res, out = replay_mod.run_go_test(self.repo, pkgdir, src, os.path.join(wd.path, 'bounded-prop'), timeout=300)
-            self.bounded.append({'scope': 'composition of %s over whole inputs' % pid, 'bound': bound, 'result': res})
+            race = self.tier == 'thorough' and pid in RACE_PROPERTIES
+            res, out = replay_mod.run_go_test(self.repo, pkgdir, src, os.path.join(wd.path, 'bounded-prop'), timeout=600, race=race)
+            self.bounded.append({'scope': 'composition of %s over whole inputs' % pid, 'bound': bound + (' (under the race detector)' if race else ''), 'result': res})
             if res != 'PASS':
                 os.makedirs(os.path.join(VERIF, 'replays'), exist_ok=True)
                 bpath = os.path.join(VERIF, 'replays', '%s-bounded-composition.json' % pid)
@@ -410,7 +422,8 @@ class Checker:
             json.dump(ev, f, indent=1)
 
 
-PROPERTY_BOUNDED = {'C02': 'ParserFamily', 'C04': 'TokenizerFamily', 'C12': 'TokenizerFamily', 'C15': 'OptionsFamily', 'C14': 'QuoteFamily', 'C16': 'SymbolFamily'}
+RACE_PROPERTIES = ('C19',)
+PROPERTY_BOUNDED = {'C19': 'EvaluatorFamily', 'C03': 'EvaluatorFamily', 'C08': 'FunctionFamily', 'C02': 'ParserFamily', 'C04': 'TokenizerFamily', 'C12': 'TokenizerFamily', 'C15': 'OptionsFamily', 'C14': 'QuoteFamily', 'C16': 'SymbolFamily'}
 
 ASSUMPTIONS = [
     'A0 trusted computing base: go/ssa front end, this engine, the SMT solvers',
